@@ -4,10 +4,12 @@ Layer A (terminal role): every Unicode scalar value >= U+0020 in three positions
 check_valid, written by the real writer in batches, read back by the guesser's and the scorer's line readers.
 Layer B (OMEN role + end to end): batches of passwords x<c>yz trained by the real trainer; the trainer's in-memory OMEN model is
 compared with what the guesser's and the scorer's OMEN loaders return; every terminal file is read by three readers (independent
-LF-only reader, guesser loader, scorer loader) which must agree; config.ini file lists must name exactly the files that exist.
+LF-only reader, guesser loader, scorer loader) which must agree; config.ini file lists must name exactly the files that exist, also when a rule
+name is trained again (every history of 2 / 3 trainings over five lists that fill different categories).
 """
 import contextlib
 import io
+import itertools
 import os
 import sys
 import unicodedata
@@ -78,6 +80,7 @@ def jobs(tier):
         sh.append(('omen8', enc))
     for enc in ('utf-8', 'latin-1'):
         sh.append(('hexjunk', enc))
+    sh.append(('retrain', 'utf-8'))
     # a 16-bit encoding end to end (not ASCII compatible: exposes readers that ignore the ruleset encoding)
     sh.append(('omen_list', 'utf-16', [0x20, 0x41, 0x61, 0xE9, 0x430, 0x20AC, 0x3042, 0x1F600, 0xA0, 0x3000, 0x21, 0x31]))
     return sh
@@ -207,10 +210,10 @@ class ScorerGrammar:
         self.count_other = {}
 
 
-def compare_training(wd, lines, enc, acc, case, raw_bytes=None):
+def compare_training(wd, lines, enc, acc, case, raw_bytes=None, keep_existing=False):
     """one training; returns list of (sig, msg)"""
     fails = []
-    ok, base, out, pi, cap = O.train_capture(wd, lines, rule='c7', encoding=enc, ngram=2, alphabet_size=100000, coverage=0.5, raw_bytes=raw_bytes)
+    ok, base, out, pi, cap = O.train_capture(wd, lines, rule='c7', encoding=enc, ngram=2, alphabet_size=100000, coverage=0.5, raw_bytes=raw_bytes, keep_existing=keep_existing)
     if ok is not True or 'trainer' not in cap:
         return [('train', 'training did not complete: %s' % out[-160:])]
     tr = cap['trainer']
@@ -405,10 +408,32 @@ def can_encode(ch, enc):
         return False
 
 
+# training lists that differ in which categories (and which lengths inside a category) they fill: a rule name that is trained again must not
+# keep anything of the earlier ruleset that its new config does not name
+RETRAIN_POOL = [['password', 'monkey'], ['abc123', 'pass!!', '1qaz2wsx', 'x1'], ['abcd1', '7!'], ['Pass2019', '#1love', 'bob@hotmail.com', 'go2www.site.com'], ['1234567', '!!!!']]
+
+
+def run_retrain(enc, tier, acc):
+    depth = 3 if tier == 'thorough' else 2
+    for hist in itertools.product(range(len(RETRAIN_POOL)), repeat=depth):
+        wd = tree.mkdtemp('pcfgmc-c07r-')
+        for step, li in enumerate(hist):
+            acc.evals += 1
+            if step > 0 and hist[step - 1] != li:
+                acc.nontrivial += 1
+            case = {'layer': 'retrain', 'encoding': enc, 'history': list(hist[:step + 1])}
+            for sig, msg in compare_training(wd, RETRAIN_POOL[li], enc, acc, case, keep_existing=step > 0):
+                acc.fail(case, 'rule name trained with lists %r in turn: after training %d: %s' % ([RETRAIN_POOL[i] for i in hist[:step + 1]], step + 1, msg), 'retrain-' + sig)
+        tree.rmtree(wd)
+    acc.sample({'layer': 'retrain', 'pool': RETRAIN_POOL, 'history_length': depth}, cap=1)
+
+
 def run_shard(shard, tier, acc):
     kind = shard[0]
     if kind == 'hexjunk':
         return run_hexjunk(shard[1], acc)
+    if kind == 'retrain':
+        return run_retrain(shard[1], tier, acc)
     if kind in ('term', 'term_special', 'term8'):
         m = get_mods()
         root = tree.mkdtemp('pcfgmc-c07-')
@@ -472,6 +497,12 @@ def replay(case):
         return msg
     tree.use()
     wd = tree.mkdtemp('pcfgmc-c07r-')
+    if case['layer'] == 'retrain':
+        fails = []
+        for step, li in enumerate(case['history']):
+            fails = compare_training(wd, RETRAIN_POOL[li], case['encoding'], acc, None, keep_existing=step > 0)
+        tree.rmtree(wd)
+        return fails[0][1] if fails else None
     fails = compare_training(wd, [case['password'], 'xqyz'], case['encoding'], acc, None) if 'password' in case else []
     tree.rmtree(wd)
     return fails[0][1] if fails else None
